@@ -288,14 +288,15 @@ CHECKS = {
                        "sizes 0, small, 32KiB-8..32KiB+1, powers of two +-1, >4MiB (rare), compressible or not, x {none, gzip -2..9, brotli 0..11} x "
                        "WantSave bit patterns; 1/6 of the messages have every field at its default (0 bytes on the wire) and in 3/4 of the cases "
                        "the reader reuses one message object per type, as the patcher does; in half of the cases the caller looks for a checkpoint only "
-                       "before some messages (drawn pattern), so messages are read between the arrival of the source checkpoint and the pop. Oracles: read-back proto.Equal to what was written, then io.EOF; every popped checkpoint is "
+                       "before some messages (drawn pattern), so messages are read between the arrival of the source checkpoint and the pop; in a quarter the reader is rewound once with Resume(nil) after k messages and reads "
+                       "the sequence again (checkpoints popped before and after must all work); in a third the reader a checkpoint is handed to has already read 1-3 messages, as the patcher's has. Oracles: read-back proto.Equal to what was written, then io.EOF; every popped checkpoint is "
                        "gob-encoded, decoded, handed to a brand-new reader over the same bytes, which must yield exactly messages i.. and EOF, "
                        "where i is the index of the first message not yet returned at pop time (including i == number of messages)."),
         "level_note": "decompressor internals (savior) are exercised only through wharf's reader.",
         "rule": ("rapid draws (compression, message list, save pattern). evaluations = sequences, sub_evaluations = 1 + checkpoints resumed. "
                  "Non-trivial: a sequence with a checkpoint whose source offset lags the message offset under a real compressor. Distinct: SHA-1 of the spec."),
         "assumptions": [],
-        "required_classes": {"quick": ["checkpoint:after-last-message", "checkpoint:source-lags-message-offset", "checkpoints:popped-some-messages-later", "msg:around-32KiB-buffer", "comp:gzip", "comp:brotli"],
+        "required_classes": {"quick": ["checkpoint:after-last-message", "checkpoint:source-lags-message-offset", "checkpoints:popped-some-messages-later", "reader:rewound-with-Resume(nil)", "second-reader:had-read-messages-before-Resume", "msg:around-32KiB-buffer", "comp:gzip", "comp:brotli"],
                              "thorough": ["checkpoint:after-last-message", "checkpoint:source-lags-message-offset", "checkpoints:popped-some-messages-later", "msg:around-32KiB-buffer", "msg:>4MiB", "comp:gzip", "comp:brotli"]},
         "stages": [rapid("wire", "TestProp", 9600, 320000, qs=16, ts=16, qt=600, tt=5400)],
     },
